@@ -507,6 +507,53 @@ def build(run):
         return proved("exec", vcs=n, sample=f"{n} representatives: pickle and eval(repr) round trips give equal objects and leave cached literals alone")
     run.add("roundtrip/pickle-and-repr", roundtrip, kind="values")
 
+    # base forms and integrals: eval(repr(.)) and pickle give an equal object (forms are compared with .equals: == builds an Equation); integrals that compare equal
+    # have one hash and one repr whatever the order in which their extra-domain map was written
+    def baseform_roundtrip():
+        from ufl import Action, Adjoint, Coargument, Cofunction, Form, FormSum, Integral, Matrix, Measure, ZeroBaseForm
+        t = terms()
+        f, g = t["f"], t["g"]
+        S_, V_ = t["S"], t["V"]
+        v, u = TestFunction(S_), C.Argument(S_, 1)
+        M = Matrix(S_, S_, count=971)
+        M2 = Matrix(S_, V_, count=972)
+        cof = Cofunction(S_.dual(), count=973)
+        dxm = Measure("dx", domain=t["msh"])
+        L_ = f * v * dxm
+        objs = [M, M2, cof, Coargument(S_.dual(), 0), ZeroBaseForm((v, u)), ZeroBaseForm((v,)), ZeroBaseForm(()), L_, f * g * dxm(1, degree=2) + f * v * Measure("ds", domain=t["msh"]),
+                L_.integrals()[0], FormSum((L_, 2), (cof, 3)), Action(M, f), Adjoint(M), Action(M2, t["u"])]
+        same = lambda a_, b_: a_.equals(b_) if hasattr(a_, "equals") else bool(a_ == b_)     # noqa: E731
+        n = 0
+        for o in objs:
+            n += 1
+            try:
+                e = eval(repr(o), dict(ns))
+            except Exception as ex:  # noqa: BLE001
+                return violated(f"eval(repr(x)) failed for a {type(o).__name__}: {type(ex).__name__}: {ex}", replay={"repr": repr(o)[:800]}, reproduced=True, backend="exec")
+            if not same(e, o) or not same(o, e) or repr(e) != repr(o):
+                return violated(f"eval(repr(x)) of a {type(o).__name__} is not equal to x: {e!r:.200} vs {o!r:.200}", replay={"repr": repr(o)[:800]}, reproduced=True, backend="exec")
+            try:
+                p_ = pickle.loads(pickle.dumps(o))
+            except Exception as ex:  # noqa: BLE001
+                return violated(f"pickle round trip of a {type(o).__name__} failed: {type(ex).__name__}: {ex}", replay={"repr": repr(o)[:800]}, reproduced=True, backend="exec")
+            if not same(p_, o) or repr(p_) != repr(o) or hash(p_) != hash(o):
+                return violated(f"pickle round trip of a {type(o).__name__} gives an unequal object", replay={"repr": repr(o)[:800]}, reproduced=True, backend="exec")
+        # integrals over several meshes: the extra-domain map written in either order
+        m0, m1, m2 = (ufl.Mesh(E.LagrangeElement(ufl.triangle, 1, (2,)), ufl_id=k_) for k_ in (981, 982, 983))
+        f0 = Coefficient(FunctionSpace(m0, P1), count=984)
+        for maps in (({m1: "exterior_facet", m2: "cell"}, {m2: "cell", m1: "exterior_facet"}), ({m2: "interior_facet", m1: "cell"}, {m1: "cell", m2: "interior_facet"})):
+            Ia, Ib = (Integral(f0, "cell", m0, 1, {}, None, extra_domain_integral_type_map=mp_) for mp_ in maps)
+            n += 1
+            if Ia == Ib:
+                bad = [w_ for w_, ok_ in (("hash", hash(Ia) == hash(Ib)), ("repr", repr(Ia) == repr(Ib)), ("a set of the two has one member", len({Ia, Ib}) == 1),
+                                          ("Form.equals", Form([Ia]).equals(Form([Ib]))), ("form hash", hash(Form([Ia])) == hash(Form([Ib]))),
+                                          ("form signature", Form([Ia]).signature() == Form([Ib]).signature())) if not ok_]
+                if bad:
+                    return violated(f"two integrals over three meshes whose extra-domain maps have the same entries in another order compare equal, but differ in: {', '.join(bad)}",
+                                    replay={"maps": [str(list(map(str, mp_.values()))) for mp_ in maps], "differ": bad}, reproduced=True, backend="exec")
+        return proved("exec", vcs=n, sample=f"{n} base forms / integrals: eval(repr) and pickle round trips equal; equal integrals have one hash, repr and signature")
+    run.add("roundtrip/base-forms-and-integrals", baseform_roundtrip, kind="values")
+
     # literals: the printed text of a real / complex literal must denote the same double (shortest round-trip text or more digits)
     def literal_roundtrip():
         import math
